@@ -736,7 +736,7 @@ func (s *sut) projectChan(c string) map[string]any {
 	for _, n := range s.nos {
 		line := []int64{}
 		if s.typed() {
-			page, e := l.t.ListByClientMsgNo(bg, n, 0, 100000)
+			page, e := l.t.ListByClientMsgNo(bg, n, 0, 256)
 			if e != nil {
 				line = []int64{s.stale(fmt.Sprintf("ListByClientMsgNo(%s,%s)", c, n), e)}
 			} else {
@@ -750,7 +750,7 @@ func (s *sut) projectChan(c string) map[string]any {
 				}
 			}
 		} else {
-			ms, _, _, e := l.k.ListMessagesByClientMsgNo(n, 0, 100000)
+			ms, _, _, e := l.k.ListMessagesByClientMsgNo(n, 0, 256)
 			if e != nil {
 				line = []int64{s.stale(fmt.Sprintf("ListMessagesByClientMsgNo(%s,%s)", c, n), e)}
 			} else {
